@@ -221,13 +221,13 @@ func (s *Sim) genAsks(appID string) Op {
 				a.Res = ph.Clone()
 				switch r.Intn(6) {
 				case 0:
-					for k := range a.Res {
+					for _, k := range sortedKeys(a.Res) {
 						if a.Res[k] > 1 {
 							a.Res[k]--
 						}
 					}
 				case 1:
-					for k := range a.Res {
+					for _, k := range sortedKeys(a.Res) {
 						a.Res[k]++
 						break
 					}
@@ -350,7 +350,7 @@ func (s *Sim) genOp() (Op, bool) {
 			}
 			id := pick(r, ids)
 			cap := sh.Nodes[id].Cap.Clone()
-			for k := range cap {
+			for _, k := range sortedKeys(cap) {
 				if r.Bool(0.6) {
 					cap[k] += int64(r.Range(-4, 4))
 					if cap[k] < 0 {
@@ -431,7 +431,7 @@ func (s *Sim) genOp() (Op, bool) {
 			}
 			m := pick(r, cands)
 			nr := m.Res.Clone()
-			for k := range nr {
+			for _, k := range sortedKeys(nr) {
 				nr[k] += int64(r.Range(-1, 2))
 				if nr[k] < 1 {
 					nr[k] = 1
